@@ -434,47 +434,98 @@ def merge_structure(P, rep, rule="MERGE"):
 
 # ------------------------------------------------------------------------------------------------ C19
 def acos_clamp(P, rep, rule="ABS.acos"):
-    rep.rule(rule, "an explicit clamp feeding acos of a normalised dot product is the identity on [-1, 1] (min(1, max(-1, x)))")
+    rep.rule(rule, "great-circle distance = radius * acos(clamp(p1.p2 / radius^2)) where the clamp is the identity on [-1, 1] and absorbs "
+                   "NaN: in the innermost std::min/std::max of the clamp the constant is the first argument (std::max(c, NaN) = c, std::max(NaN, c) = NaN), "
+                   "so the degenerate 0/0 at radius 0 gives a finite distance")
     F = P.func("WorldBuilder::CoordinateSystems::Spherical::distance_between_points_at_same_depth")
-    n = 0
-    for x in F.walk():
-        if x.get("k") == "CallExpr" and P.d(x.get("callee")).get("qn") in ("std::acos", "acos"):
-            n += 1
-            arg = sc(x["c"][1])
-            # interval evaluation of nested min/max with constants
-            lo, hi = -sp.oo, sp.oo
+    DOT, r, AC = sp.Symbol("DOT"), sp.Symbol("radius", positive=True), sp.Symbol("ACOS")
 
-            def bounds(e):
-                e = sc(e)
-                if e.get("k") == "CallExpr" and P.d(e.get("callee")).get("qn") in ("std::min", "std::max"):
-                    a, b = sc(e["c"][1]), sc(e["c"][2])
-                    isMin = P.d(e["callee"])["qn"] == "std::min"
-                    res = []
-                    for u, v in ((a, b), (b, a)):
-                        if u.get("k") in ("FloatingLiteral", "IntegerLiteral") or (u.get("k") == "UnaryOperator" and sc(u["c"][0]).get("k") in ("FloatingLiteral", "IntegerLiteral")):
-                            c = float(u["v"]) if "v" in u else -float(sc(u["c"][0])["v"])
-                            l2, h2 = bounds(v)
-                            return (l2, min(h2, c)) if isMin else (max(l2, c), h2)
-                    return (-sp.oo, sp.oo)
-                return (-sp.oo, sp.oo)
-            lo, hi = bounds(arg)
-            if lo == -sp.oo and hi == sp.oo:
-                rep.ok(rule, "acos argument is not clamped", F.nloc(x), F.qn)
-            elif float(lo) <= -1.0 and float(hi) >= 1.0:
-                rep.ok(rule, "acos argument clamped to [%s, %s] (identity on [-1,1])" % (lo, hi), F.nloc(x), F.qn)
+    def is_const(u):
+        u = sc(u)
+        return u.get("k") in ("FloatingLiteral", "IntegerLiteral") or (u.get("k") == "UnaryOperator" and u.get("op") == "-" and sc(u["c"][0]).get("k") in ("FloatingLiteral", "IntegerLiteral"))
+
+    def const_val(u):
+        u = sc(u)
+        return float(u["v"]) if "v" in u else -float(sc(u["c"][0])["v"])
+
+    def hook(nd):
+        if nd.get("k") == "CXXOperatorCallExpr" and nd.get("op") == "*" and "Point<3>" in sc(nd["c"][0]).get("t", "") and "Point<3>" in sc(nd["c"][1]).get("t", ""):
+            names = {norm.render(P, nd["c"][0], nocast=True), norm.render(P, nd["c"][1], nocast=True)}
+            inits = set()
+            for nm in names:
+                for v in F.walk():
+                    if v.get("k") == "VarDecl" and v.get("n") == nm and v.get("c"):
+                        inits.add(norm.render(P, v["c"][0], nocast=True).replace(" ", ""))
+            if len(names) == 2 and len(inits) == 2 and all("spherical_to_cartesian_coordinates" in i for i in inits) and any("point_1" in i for i in inits) and any("point_2" in i for i in inits):
+                return DOT
+        if nd.get("k") == "DeclRefExpr" and nd.get("n") == "radius":
+            return r
+        return None
+    n = 0
+    acos_nodes = [x for x in F.walk() if x.get("k") == "CallExpr" and P.d(x.get("callee")).get("qn") in ("std::acos", "acos")]
+    for x in acos_nodes:
+        n += 1
+        e = x["c"][1]
+        lo, hi = -sp.oo, sp.oo
+        absorbing = True
+        # follow locals
+        def deref(e):
+            e = sc(e)
+            if e.get("k") == "DeclRefExpr" and P.d(e["r"]).get("storage") == "local":
+                for v in F.walk():
+                    if v.get("k") == "VarDecl" and v.get("r") == e["r"] and v.get("c"):
+                        return deref(v["c"][0])
+            return e
+        e = deref(e)
+        while e.get("k") == "CallExpr" and P.d(e.get("callee")).get("qn") in ("std::min", "std::max"):
+            a, b = e["c"][1], e["c"][2]
+            is_min = P.d(e["callee"])["qn"] == "std::min"
+            if is_const(a):
+                cst, rest = const_val(a), b
+                absorbing = True      # the innermost call decides: std::min/max return their first argument when the second is NaN
+            elif is_const(b):
+                cst, rest = const_val(b), a
+                absorbing = False
             else:
-                rep.violation(rule, "acos argument clamped to [%s, %s]" % (lo, hi), F.nloc(x), F.qn, norm.render(P, x)[:120],
-                              "dot products outside that interval are legitimate: points more than 90 degrees apart get the wrong distance",
-                              key=rule + "|clamp", witness="two points 135 degrees apart: R*pi/2 instead of R*3pi/4")
+                break
+            if is_min:
+                hi = min(hi, cst)
+            else:
+                lo = max(lo, cst)
+            e = deref(rest)
+        inner = norm.Sym(P, F, inline_locals=True, hook=hook)(e)
+        if sp.simplify(inner - DOT / r ** 2) != 0:
+            rep.violation(rule, "acos is applied to %s" % str(inner)[:80], F.nloc(x), F.qn, norm.render(P, x)[:140], "expected the normalised dot product p1.p2/radius^2",
+                          key=rule + "|formula", witness="two points 60 degrees apart")
+            continue
+        if lo == -sp.oo and hi == sp.oo:
+            rep.ok(rule, "acos argument is the normalised dot product, not clamped", F.nloc(x), F.qn)
+        elif float(lo) <= -1.0 and float(hi) >= 1.0:
+            if lo != -sp.oo and hi != sp.oo and not absorbing:
+                rep.violation(rule, "the clamp passes NaN through (in the innermost std::min/std::max the constant is the second argument)", F.nloc(x), F.qn, norm.render(P, x)[:140],
+                              "std::max(NaN, c) and std::min(NaN, c) return NaN: at radius 0 the distance (and every temperature computed from it) is NaN",
+                              key=rule + "|nan", witness="query at the centre of the sphere with depth 0 (p1.p2/radius^2 = 0/0)")
+            else:
+                rep.ok(rule, "acos argument clamped to [%s, %s] (identity on [-1,1]), NaN-absorbing argument order" % (lo, hi), F.nloc(x), F.qn)
+        else:
+            rep.violation(rule, "acos argument clamped to [%s, %s]" % (lo, hi), F.nloc(x), F.qn, norm.render(P, x)[:120],
+                          "dot products outside that interval are legitimate: points more than 90 degrees apart get the wrong distance",
+                          key=rule + "|clamp", witness="two points 135 degrees apart: R*pi/2 instead of R*3pi/4")
     if n == 0:
         rep.unknown(rule, "no acos in distance_between_points_at_same_depth")
-    # the argument is the normalised dot product
+        return
+    # the result is radius * acos(...)
     rets = [x for x in F.walk() if x.get("k") == "ReturnStmt" and x.get("c")]
-    txt = norm.render(P, rets[0]["c"][0], nocast=True).replace(" ", "") if rets else ""
-    if re.search(r"\(\(point_1_cart\*point_2_cart\)/\(radius\*radius\)\)", txt) and txt.startswith("(radius*"):
-        rep.ok(rule, "distance = radius * acos(p1.p2 / radius^2)", F.loc, F.qn)
+
+    def hook2(nd):
+        if nd in acos_nodes or any(nd is a for a in acos_nodes):
+            return AC
+        return hook(nd)
+    val = norm.Sym(P, F, inline_locals=True, hook=hook2)(rets[0]["c"][0]) if len(rets) == 1 else None
+    if val is not None and sp.simplify(val - r * AC) == 0:
+        rep.ok(rule, "distance = radius * acos(...)", F.loc, F.qn)
     else:
-        rep.violation(rule, "great-circle distance is %s" % txt[:100], F.loc, F.qn, txt[:160], "expected radius*acos(p1.p2/radius^2)", key=rule + "|formula")
+        rep.violation(rule, "great-circle distance is %s" % str(val)[:100], F.loc, F.qn, str(val)[:160], "expected radius*acos(p1.p2/radius^2)", key=rule + "|result")
 
 
 def bezier_algebra(P, rep, rule="EXPR.bezier"):
